@@ -29,6 +29,8 @@ type Ledger struct {
 	Alias   [][]byte
 	Dup     []byte   // a token with TWO creators (outside the single-creator discipline): equal nonces with different hashes exist
 	DupCreators []string
+	XR       []byte // an NFT token without a creator at first
+	XRHolder string // holds only its burn role
 	Users   []string // user names (all shards)
 	SCs     []string
 	DNS     []string
@@ -95,6 +97,7 @@ func NewLedger(seed int64, traceNo int, profile string, t *world.Tracer) (*Ledge
 	d.Fung = [][]byte{[]byte("F1"), []byte("FT-2")}
 	d.NFT = [][]byte{[]byte("N"), []byte("SFT-9")}
 	d.Dup = []byte("DUP-7")
+	d.XR = []byte("XR-3")
 	// ids that alias other keys when concatenated with a nonce
 	d.Alias = [][]byte{[]byte("N\x01"), []byte("N\x02"), {}, []byte("F"), []byte("SFT-9\x01"), []byte("N\x01\x00")}
 	for _, a := range addrs {
@@ -139,7 +142,7 @@ func NewLedger(seed int64, traceNo int, profile string, t *world.Tracer) (*Ledge
 	for s := 0; s < n; s++ {
 		w.SetOracle(w.Addr(fmt.Sprintf("c%db", s)), "no")
 	}
-	issued := append(append([][]byte{}, d.Fung...), d.NFT...)
+	issued := append(append(append([][]byte{}, d.Fung...), d.NFT...), d.XR)
 	ev := world.AEvent{A: "init", Res: "ok"}
 	cfgA := d.P.CfgOf(issued, traceNo, profile)
 	cfgA.Dup = []string{fmt.Sprintf("%x", d.Dup)}
@@ -1051,6 +1054,18 @@ func (d *Ledger) actPause() {
 }
 
 func (d *Ledger) actHandover() {
+	if d.XRHolder != "" && d.Creator[string(d.XR)] == "" && !d.Pending[string(d.XR)] && d.chance(30) {
+		// hand-over from an account that has roles for the token but not the create role
+		next := d.otherAcct(d.XRHolder)
+		c := d.call("ESDTNFTCreateRoleTransfer", "esdtsc", d.XRHolder, d.XR, d.W.Addr(next))
+		if r := d.record("exec", d.shardOfName(d.XRHolder), c); r.Res == "ok" {
+			d.Creator[string(d.XR)] = next
+			if d.shardOfName(next) != d.shardOfName(d.XRHolder) {
+				d.Pending[string(d.XR)] = true
+			}
+		}
+		return
+	}
 	var toks []string
 	for t := range d.Creator {
 		if !d.Pending[t] {
@@ -1355,6 +1370,23 @@ func (d *Ledger) Setup() {
 			cc := d.call("ESDTNFTCreate", u, u, d.Dup, d.amt(3), []byte("dup"), nb(5), []byte(fmt.Sprintf("hash-%d", i)), []byte("a"), []byte("u"))
 			cc.Gas = 600000
 			d.record("exec", d.shardOfName(u), cc)
+		}
+	}
+	// a role the account already holds is set again (outside the "never a role twice" discipline, on the exempt token only)
+	{
+		u := d.DupCreators[0]
+		c := d.call("ESDTSetRole", "esdtsc", u, d.Dup, []byte("ESDTRoleNFTAddQuantity"), []byte("ESDTRoleNFTBurn"))
+		c.Gas = 600000
+		d.record("exec", d.shardOfName(u), c)
+	}
+	// a third NFT token nobody may create yet: one account holds only its burn role; a hand-over "from" that account (it never held the
+	// create role) is how the create role gets assigned later
+	{
+		u := d.Users[(d.TraceNo+2)%len(d.Users)]
+		c := d.call("ESDTSetRole", "esdtsc", u, d.XR, []byte("ESDTRoleNFTBurn"))
+		c.Gas = 600000
+		if r := d.record("exec", d.shardOfName(u), c); r.Res == "ok" {
+			d.XRHolder = u
 		}
 	}
 	// no further creates of the two-creator token (a creator holding the other's same-nonce copy would overwrite it)
